@@ -26,7 +26,7 @@ TRACE = "Trace_Ranges"
 MODES = ["outer", "inner", "trim"]
 REQUIRE_CLAUSES = ["br_bins", "br_outer", "br_inner", "br_trim", "ir_outer", "ir_inner", "ir_trim",
                    "irs_outer", "irs_inner", "irs_trim", "ix_outer", "ix_inner", "ix_trim",
-                   "iro_count", "iro_outer", "iro_inner", "into_one_per_query", "into_default", "into_single",
+                   "iro_count", "iro_outer", "iro_inner", "iro_trim", "into_one_per_query", "into_default", "into_single",
                    "into_summary"]
 
 # chromosome id -> name; natural order (sorter_chrom) == id order, lexicographic order differs (see c06.py)
@@ -335,23 +335,23 @@ SCOPES = {
         dict(max_coord=4, max_a=2, max_b=2, nchrom=1, genes=["g"], idx="default", vset="full", naming=0,
              name="<=2 rows x <=2 queries over 0..4, 1 chromosome, all operation variants"),
         dict(max_coord=3, max_a=2, max_b=2, nchrom=2, genes=["g"], idx="default", vset="pairs2", naming=1,
-             name="<=2 x <=2 over 0..3, 2 chromosomes, by_ranges (3 modes)/intersection/iter_ranges_of/into_ranges + in_range"),
-        dict(max_coord=3, max_a=2, max_b=2, nchrom=1, genes=["g", "h"], idx="gapped", vset="labels", naming=2,
-             name="<=2 x <=2 over 0..3, 1 chromosome, two gene values, filtered table (index labels 0,2)"),
+             name="<=2 x <=2 over 0..3, 2 chromosomes, by_ranges (3 modes) / into_ranges + in_range"),
+        dict(max_coord=3, max_a=2, max_b=1, nchrom=1, genes=["g", "h"], idx="gapped", vset="labels", naming=2,
+             name="<=2 x <=1 over 0..3, 1 chromosome, two gene values, filtered table (index labels 0,2), label-based ops"),
     ],
     "thorough": [
-        dict(max_coord=6, max_a=2, max_b=3, nchrom=1, genes=["g"], idx="default", vset="min", naming=0, shards=4,
+        dict(max_coord=6, max_a=2, max_b=3, nchrom=1, genes=["g"], idx="default", vset="min", naming=0, shards=8,
              name="<=2 rows x <=3 queries over 0..6, 1 chromosome, by_ranges in all three modes"),
-        dict(max_coord=5, max_a=2, max_b=2, nchrom=1, genes=["g"], idx="default", vset="full", naming=0,
-             name="<=2 x <=2 over 0..5, 1 chromosome, all operation variants"),
-        dict(max_coord=6, max_a=2, max_b=3, nchrom=1, genes=["g"], idx="default", vset="ranges", naming=1,
-             name="<=2 rows x <=3 ranges over 0..6, in_range/in_ranges with every None combination"),
-        dict(max_coord=4, max_a=2, max_b=2, nchrom=2, genes=["g"], idx="default", vset="core", naming=1,
-             name="<=2 x <=2 over 0..4, 2 chromosomes, core variants + in_range"),
-        dict(max_coord=4, max_a=2, max_b=2, nchrom=1, genes=["g", "h"], idx="gapped", vset="labels", naming=2,
-             name="<=2 x <=2 over 0..4, two gene values, filtered table (index labels 0,2)"),
+        dict(max_coord=5, max_a=2, max_b=2, nchrom=1, genes=["g"], idx="default", vset="pairs", naming=0,
+             name="<=2 x <=2 over 0..5, 1 chromosome, all table-by-table operation variants + in_range"),
+        dict(max_coord=4, max_a=2, max_b=3, nchrom=1, genes=["g"], idx="default", vset="ranges", naming=1,
+             name="<=2 rows x <=3 ranges over 0..4, in_range/in_ranges with every None combination, chromosome given/None/absent"),
+        dict(max_coord=4, max_a=2, max_b=2, nchrom=2, genes=["g"], idx="default", vset="pairs2", naming=1,
+             name="<=2 x <=2 over 0..4, 2 chromosomes, by_ranges (3 modes) / into_ranges + in_range"),
+        dict(max_coord=4, max_a=2, max_b=1, nchrom=1, genes=["g", "h"], idx="gapped", vset="labels", naming=2,
+             name="<=2 x <=1 over 0..4, two gene values, filtered table (index labels 0,2), label-based ops"),
         dict(max_coord=4, max_a=2, max_b=2, nchrom=1, genes=["g"], idx="shifted", vset="labels", naming=0,
-             name="<=2 x <=2 over 0..4, filtered table (index labels 3,5)"),
+             name="<=2 x <=2 over 0..4, filtered table (index labels 3,5), label-based ops"),
     ],
 }
 
@@ -443,15 +443,11 @@ def random_groups(ctx: Ctx, n):
                  "chrom": 0, "hs": True, "he": True}
             if base == "iter_ranges_of":
                 v["col"] = rng.choice(["gene", "val", "n", "start", "end"])
-                if rng.random() < 0.9:      # trim is a recorded finding; keep most of the budget on the other modes
-                    v["mode"] = rng.choice(["outer", "inner"])
             elif base == "into_ranges":
                 v["mode"] = "outer"
                 v["col"] = rng.choice(["gene", "gene", "val", "val", "n", "start", "missing"])
                 fs = ["none", "none", "const", "count", "first", "last"] + (["sum", "max"] if v["col"] not in ("gene", "missing") else [])
                 v["sfun"] = rng.choice(fs)
-                if v["col"] in ("n", "start") and v["sfun"] == "none" and rng.random() < 0.7:
-                    v["sfun"] = "first"     # the integer default summary is a recorded finding
             elif base in ("in_range", "in_ranges"):
                 present = sorted({r[0] for r in a})
                 if len(present) <= 1 and rng.random() < 0.4:
